@@ -566,8 +566,17 @@ impl StreamH {
                 (v, None)
             }
             SOp::GetOutput => {
-                let s = self.s.as_ref().expect("stream already finished");
-                let (v, n) = guard(|| -> Result<Option<u64>, String> { Ok(s.get_output().map(|w| w.st.borrow().data.len() as u64)) });
+                let s = self.s.as_mut().expect("stream already finished");
+                // get_output and get_output_mut must agree; Debug formatting must not panic in any state
+                let (v, n) = guard(|| -> Result<Option<u64>, String> {
+                    let a = s.get_output().map(|w| w.st.borrow().data.len() as u64);
+                    let b = s.get_output_mut().map(|w| w.st.borrow().data.len() as u64);
+                    let _ = format!("{:?}", s);
+                    if a != b {
+                        return Err(format!("get_output() gives {:?} but get_output_mut() gives {:?}", a, b));
+                    }
+                    Ok(a)
+                });
                 (v, n.flatten())
             }
             SOp::Finish => {
@@ -866,7 +875,8 @@ fn run_case_inner(c: &Case) -> Obs {
             run_raw(&mut h, ops, &mut o);
         }
         Case::RawLzma2 { ops } => {
-            let mut h = RawH::new_lzma2();
+            // (Lzma2Decoder::default() for op lists of even length, ::new() otherwise)
+            let mut h = if ops.len() % 2 == 0 { RawH::L2(Lzma2Decoder::default()) } else { RawH::new_lzma2() };
             run_raw(&mut h, ops, &mut o);
         }
         Case::RawLzmaHdr { opts, input } => {
